@@ -1,4 +1,5 @@
 import GtfsVerif.Lemmas.RealtimeLinks
+import GtfsVerif.Props.C17
 /-! # C07 — realtime entities merge order-independently into unique, sorted trips / vehicles
 
 Model: `Gtfs.Rt.parse` (Model/Realtime.lean): the extension pre-pass, the merge loop
@@ -347,18 +348,14 @@ theorem tripVehicle_perm_invariant (ext : Ext) (es es' : List (Entity × Bool)) 
     `Trips` – identifiers, order, data and the vehicle each trip refers to – and the same `Vehicles`:
     the identified ones identical (order, data and the trip each refers to), the id-less ones the
     same multiset, each with the trip of its own entity. -/
-theorem C07_parse_perm_invariant (ext : Ext) (m m' : Msg) (hp : m'.entities.Perm m.entities)
-    (ht : m'.timestamp = m.timestamp) (hext : ∀ o, ext ≠ .alerts o)
-    (hcfT : ConflictFreeTrips ext (prepass ext m)) (hcfV : ConflictFreeVehicles ext (prepass ext m))
-    (hfun : FunctionalLinks (allItems ext (prepass ext m))) :
-    (parse ext m').trips = (parse ext m).trips ∧
+theorem C07_finish_perm_invariant (ext : Ext) (c c' : Int) (es es' : List (Entity × Bool)) (hpp : es'.Perm es)
+    (hcfT : ConflictFreeTrips ext es) (hcfV : ConflictFreeVehicles ext es) (hfun : FunctionalLinks (allItems ext es)) :
+    (finish c' (runEntities ext es')).trips = (finish c (runEntities ext es)).trips ∧
     ∃ withId noId noId' : List VehicleOut,
-      (parse ext m).vehicles = withId ++ noId ∧ (parse ext m').vehicles = withId ++ noId' ∧ noId'.Perm noId := by
-  have hpp := prepass_perm ext m m' hp ht hext
-  unfold parse finish
+      (finish c (runEntities ext es)).vehicles = withId ++ noId ∧ (finish c' (runEntities ext es')).vehicles = withId ++ noId' ∧
+      noId'.Perm noId := by
+  unfold finish
   simp only
-  generalize prepass ext m = es at hcfT hcfV hfun hpp
-  generalize prepass ext m' = es' at hpp
   have htrips := C07_trip_table_perm_invariant ext es es' hpp hcfT
   have hsortedT := C07_trips_perm_invariant ext es es' hpp hcfT
   obtain ⟨_, hnd, _, _⟩ := runEntities_inv ext es
@@ -411,6 +408,17 @@ theorem C07_parse_perm_invariant (ext : Ext) (m m' : Msg) (hp : m'.entities.Perm
       rw [hf]
       exact hid.map _
 
+/-- the same for `ParseRealtime` with no extension or the NYCT trips extension, whose pre-pass works
+    entity by entity (the NYCT alerts extension: `C07_parse_perm_invariant_alerts` below) -/
+theorem C07_parse_perm_invariant (ext : Ext) (m m' : Msg) (hp : m'.entities.Perm m.entities)
+    (ht : m'.timestamp = m.timestamp) (hext : ∀ o, ext ≠ .alerts o)
+    (hcfT : ConflictFreeTrips ext (prepass ext m)) (hcfV : ConflictFreeVehicles ext (prepass ext m))
+    (hfun : FunctionalLinks (allItems ext (prepass ext m))) :
+    (parse ext m').trips = (parse ext m).trips ∧
+    ∃ withId noId noId' : List VehicleOut,
+      (parse ext m).vehicles = withId ++ noId ∧ (parse ext m').vehicles = withId ++ noId' ∧ noId'.Perm noId :=
+  C07_finish_perm_invariant ext _ _ _ _ (prepass_perm ext m m' hp ht hext) hcfT hcfV hfun
+
 end Gtfs.Rt
 
 namespace Gtfs.Rt
@@ -424,4 +432,356 @@ example : (allItems .noExt (prepass .noExt demoMsg)).length = 2 := by decide
 example : ConflictFreeTrips .noExt (prepass .noExt demoMsg) := conflictFreeTrips_of_nodup _ _ (by decide)
 example : ConflictFreeVehicles .noExt (prepass .noExt demoMsg) := conflictFreeVehicles_of_nodup _ _ (by decide)
 
+end Gtfs.Rt
+
+/-! # the NYCT alerts extension: order independence of Trips and Vehicles although the pre-pass is order-sensitive -/
+
+namespace Gtfs.Rt
+
+theorem alertSelStep_stopSel_trips (acc : AlertAcc) (s : Str) : (alertSelStep acc (stopSel s)).trips = acc.trips := by
+  have hi : identifies none = false := rfl
+  simp only [alertSelStep, stopSel, Option.map_none, hi]
+  by_cases h : (!informsSomething { routeType := routeTypeRT none, dir := dirRT none, stopId := some s }) = true <;> simp [h]
+
+theorem foldl_stopSel_trips (l : List Str) (acc : AlertAcc) : ((l.map stopSel).foldl alertSelStep acc).trips = acc.trips := by
+  induction l generalizing acc with
+  | nil => rfl
+  | cons s r ih => simp only [List.map_cons, List.foldl_cons]; rw [ih, alertSelStep_stopSel_trips]
+
+theorem parseAlert_stopSels (id : Str) (fa : AlertMsg) (l : List Str) (h : fa.informed = l.map stopSel) :
+    (parseAlert id fa).2 = [] := by
+  simp only [parseAlert, h, foldl_stopSel_trips]
+
+end Gtfs.Rt
+
+namespace Gtfs.Rt
+
+/-- what the pre-pass of the NYCT alerts extension does to one entity *as far as trips and vehicles are
+    concerned*: plain entities pass, plain alerts are rewritten on their own, elevator alerts contribute
+    nothing (whichever member of a group comes first, the entry left in the feed informs stops only) -/
+def tvEntry (o : NyctAlertsOpts) (e : Entity) : Entity × Bool :=
+  match e.tripUpdate, e.vehicle, e.alert with
+  | none, none, some a =>
+    match matchElevator e.id with
+    | none => ({ e with alert := some (nyctUpdatePlainAlert o e.id a).1 }, (nyctUpdatePlainAlert o e.id a).2)
+    | some _ => (e, true)
+  | _, _, _ => (e, false)
+
+/-- an entry that adds no trip, no vehicle and no link -/
+def Silent (ext : Ext) (p : Entity × Bool) : Prop :=
+  p.2 = true ∨ (tripMentions ext p.1 = [] ∧ vehMentions ext p.1 = [] ∧ vehItem ext p.1 = none)
+
+def Rel (ext : Ext) (p q : Entity × Bool) : Prop := p = q ∨ (Silent ext p ∧ Silent ext q)
+
+/-- element-wise relation between two lists of the same length -/
+inductive AllRel {α β} (R : α → β → Prop) : List α → List β → Prop
+  | nil : AllRel R [] []
+  | cons {a b l m} : R a b → AllRel R l m → AllRel R (a :: l) (b :: m)
+
+theorem mentions_congr (ext : Ext) (D T : List (Entity × Bool)) (h : AllRel (Rel ext) D T) :
+    allMentions ext D = allMentions ext T ∧ allVehMentions ext D = allVehMentions ext T ∧ allItems ext D = allItems ext T := by
+  induction h with
+  | nil => exact ⟨rfl, rfl, rfl⟩
+  | @cons p q D T hpq _ ih =>
+    obtain ⟨i1, i2, i3⟩ := ih
+    unfold allMentions allVehMentions allItems at *
+    rcases hpq with rfl | ⟨hp, hq⟩
+    · simp only [List.filter_cons]
+      split
+      · simp only [List.flatMap_cons, List.filterMap_cons, i1, i2, i3]
+        exact ⟨trivial, trivial, trivial⟩
+      · exact ⟨i1, i2, i3⟩
+    · have key : ∀ r : Entity × Bool, Silent ext r →
+          ((r :: ([] : List (Entity × Bool))).filter fun p => !p.2).flatMap (fun p => tripMentions ext p.1) = [] ∧
+          ((r :: ([] : List (Entity × Bool))).filter fun p => !p.2).flatMap (fun p => vehMentions ext p.1) = [] ∧
+          ((r :: ([] : List (Entity × Bool))).filter fun p => !p.2).filterMap (fun p => vehItem ext p.1) = [] := by
+        intro r hr
+        rcases hr with hs | ⟨h1, h2, h3⟩
+        · simp [List.filter_cons, hs]
+        · simp only [List.filter_cons]
+          split <;> simp [h1, h2, h3]
+      have kp := key p hp
+      have kq := key q hq
+      have e1 : ∀ (x : Entity × Bool) (L : List (Entity × Bool)), x :: L = [x] ++ L := fun _ _ => rfl
+      rw [e1 p D, e1 q T]
+      simp only [List.filter_append, List.flatMap_append, List.filterMap_append, kp.1, kp.2.1, kp.2.2, kq.1, kq.2.1, kq.2.2,
+        List.nil_append, i1, i2, i3]
+      exact ⟨trivial, trivial, trivial⟩
+
+theorem forall₂_of_index {α β} (R : α → β → Prop) (D : List α) (T : List β) (hl : D.length = T.length)
+    (h : ∀ (j : Nat) p q, D[j]? = some p → T[j]? = some q → R p q) : AllRel R D T := by
+  induction D generalizing T with
+  | nil =>
+    cases T with
+    | nil => exact .nil
+    | cons _ _ => simp at hl
+  | cons p D ih =>
+    cases T with
+    | nil => simp at hl
+    | cons q T =>
+      refine .cons (h 0 p q rfl rfl) (ih T (by simpa using hl) ?_)
+      intro j p' q' h1 h2
+      exact h (j + 1) p' q' (by simpa using h1) (by simpa using h2)
+
+end Gtfs.Rt
+
+namespace Gtfs.Rt
+
+theorem elev_silent (ext : Ext) (ent : Entity) (fa : AlertMsg) (l : List Str) (htu : ent.tripUpdate = none) (hv : ent.vehicle = none)
+    (hal : ent.alert = some fa) (hinf : fa.informed = l.map stopSel) : Silent ext (ent, false) := by
+  right
+  refine ⟨?_, ?_, ?_⟩
+  · simp [tripMentions, htu, hv, hal, parseAlert_stopSels ent.id fa l hinf]
+  · simp [vehMentions, htu, hv]
+  · simp [vehItem, htu, hv]
+
+/-- the entry at a group's position is silent -/
+theorem group_silent (o : NyctAlertsOpts) (pre : List Entity) (st : AlertPass) (hG : GInv o pre st) (hA : AOnly st)
+    (k : Str) (i : Nat) (h : alookup k st.groups = some i) : ∃ p, st.done[i]? = some p ∧ Silent (.alerts o) p := by
+  obtain ⟨ent, fa, hd, _, hal, hinf, _, _⟩ := hG.1 k i h
+  obtain ⟨p, hp, htu, hv⟩ := hA k i h
+  rw [hd] at hp; cases hp
+  exact ⟨_, hd, elev_silent _ ent fa _ htu hv hal hinf⟩
+
+theorem tvEntry_of_key (o : NyctAlertsOpts) (e : Entity) (k : Str) (h : groupKeyOf o e = some k) : tvEntry o e = (e, true) := by
+  unfold groupKeyOf at h
+  unfold tvEntry
+  split at h
+  · next a h1 h2 h3 =>
+    simp only [h1, h2, h3]
+    cases hm : matchElevator e.id with
+    | none => simp [hm] at h
+    | some m => rfl
+  · simp at h
+
+theorem tvEntry_of_noKey (o : NyctAlertsOpts) (st : AlertPass) (e : Entity) (h : groupKeyOf o e = none) :
+    (passStep o st e).done = st.done ++ [tvEntry o e] := by
+  unfold groupKeyOf at h
+  unfold passStep tvEntry
+  cases h1 : e.tripUpdate <;> cases h2 : e.vehicle <;> cases h3 : e.alert <;> simp only [h1, h2, h3] at h ⊢
+  rename_i a
+  cases hm : matchElevator e.id with
+  | none => simp [alertPassStep, hm, h1, h2]
+  | some m => simp [hm] at h
+
+/-- the entries after a step on an elevator alert: old entries stay, except possibly the one at a
+    group's position (before and after); the new entry is skipped or sits at a group's position -/
+theorem passStep_done_key (o : NyctAlertsOpts) (st : AlertPass) (e : Entity) (k : Str) (h : groupKeyOf o e = some k) :
+    (passStep o st e).done.length = st.done.length + 1 ∧
+    (∀ (j : Nat) p', j < st.done.length → (passStep o st e).done[j]? = some p' →
+        st.done[j]? = some p' ∨ ∃ k, alookup k (passStep o st e).groups = some j ∧ alookup k st.groups = some j) ∧
+    (∀ p', (passStep o st e).done[st.done.length]? = some p' →
+        p'.2 = true ∨ ∃ k, alookup k (passStep o st e).groups = some st.done.length) := by
+  refine ⟨(passStep_spec o st e).1, ?_, ?_⟩
+  all_goals
+    unfold groupKeyOf at h
+    unfold passStep
+    cases h1 : e.tripUpdate <;> cases h2 : e.vehicle <;> cases h3 : e.alert <;> simp only [h1, h2, h3] at h ⊢ <;>
+      first | (simp at h; done) | skip
+    rename_i a
+    unfold alertPassStep
+    cases hm : matchElevator e.id with
+    | none => simp [hm] at h
+    | some m =>
+      obtain ⟨station, suffix, elevator⟩ := m
+      simp only
+      cases hl : alookup (elevatorNewId o station suffix elevator) st.groups with
+      | some i =>
+        simp only
+        first
+        | (intro j p' hj hp'
+           rw [List.getElem?_append_left (by rw [modifyAt_length]; exact hj), modifyAt_getElem?] at hp'
+           by_cases hji : j = i
+           · subst hji; exact Or.inr ⟨_, hl, hl⟩
+           · left
+             cases hd : st.done[j]? with
+             | none => rw [hd] at hp'; simp at hp'
+             | some x => rw [hd] at hp'; simpa [hji] using hp')
+        | (intro p' hp'
+           rw [List.getElem?_append_right (by rw [modifyAt_length]; exact Nat.le_refl _), modifyAt_length, Nat.sub_self] at hp'
+           simp only [List.getElem?_cons_zero, Option.some.injEq] at hp'
+           left; rw [← hp'])
+      | none =>
+        simp only
+        first
+        | (intro j p' hj hp'
+           rw [List.getElem?_append_left hj] at hp'
+           exact Or.inl hp')
+        | (intro p' _
+           right
+           refine ⟨elevatorNewId o station suffix elevator, ?_⟩
+           rw [alookup_append, hl]
+           simp [alookup])
+
+end Gtfs.Rt
+
+namespace Gtfs.Rt
+
+def RInv (o : NyctAlertsOpts) (pre : List Entity) (st : AlertPass) : Prop :=
+  st.done.length = pre.length ∧
+  ∀ (j : Nat) p e, st.done[j]? = some p → pre[j]? = some e → Rel (.alerts o) p (tvEntry o e)
+
+theorem silent_partner (ext : Ext) (p q : Entity × Bool) (hr : Rel ext p q) (hp : Silent ext p) : Silent ext q := by
+  rcases hr with rfl | ⟨_, hq⟩
+  · exact hp
+  · exact hq
+
+theorem passStep_RInv (o : NyctAlertsOpts) (pre : List Entity) (st : AlertPass) (e : Entity)
+    (hG : GInv o pre st) (hA : AOnly st) (hR : RInv o pre st) : RInv o (pre ++ [e]) (passStep o st e) := by
+  obtain ⟨hlen, hrel⟩ := hR
+  have hG' := passStep_GInv o pre st e hG
+  have hA' := passStep_AOnly o st e hA
+  cases hk : groupKeyOf o e with
+  | none =>
+    have hd := tvEntry_of_noKey o st e hk
+    refine ⟨by rw [hd]; simp [hlen], ?_⟩
+    intro j p e' hp he'
+    rw [hd] at hp
+    by_cases hj : j < st.done.length
+    · rw [List.getElem?_append_left hj] at hp
+      rw [List.getElem?_append_left (by omega)] at he'
+      exact hrel j p e' hp he'
+    · by_cases hj2 : j = st.done.length
+      · subst hj2
+        rw [List.getElem?_append_right (Nat.le_refl _), Nat.sub_self] at hp
+        rw [hlen, List.getElem?_append_right (Nat.le_refl _), Nat.sub_self] at he'
+        simp only [List.getElem?_cons_zero, Option.some.injEq] at hp he'
+        subst hp he'
+        exact Or.inl rfl
+      · have : (st.done ++ [tvEntry o e]).length ≤ j := by simp; omega
+        rw [List.getElem?_eq_none this] at hp; cases hp
+  | some k =>
+    obtain ⟨hl', hold, hnew⟩ := passStep_done_key o st e k hk
+    refine ⟨by rw [hl']; simp [hlen], ?_⟩
+    intro j p e' hp he'
+    by_cases hj : j < st.done.length
+    · rw [List.getElem?_append_left (by omega)] at he'
+      rcases hold j p hj hp with h0 | ⟨k', hpost, hpre⟩
+      · exact hrel j p e' h0 he'
+      · obtain ⟨p1, hp1, hs1⟩ := group_silent o _ _ hG' hA' k' j hpost
+        rw [hp] at hp1; cases hp1
+        obtain ⟨p0, hp0, hs0⟩ := group_silent o _ _ hG hA k' j hpre
+        exact Or.inr ⟨hs1, silent_partner _ _ _ (hrel j p0 e' hp0 he') hs0⟩
+    · by_cases hj2 : j = st.done.length
+      · subst hj2
+        rw [hlen, List.getElem?_append_right (Nat.le_refl _), Nat.sub_self] at he'
+        simp only [List.getElem?_cons_zero, Option.some.injEq] at he'
+        subst he'
+        rw [tvEntry_of_key o e k hk]
+        refine Or.inr ⟨?_, Or.inl rfl⟩
+        rcases hnew p hp with hs | ⟨k', hpost⟩
+        · exact Or.inl hs
+        · obtain ⟨p1, hp1, hs1⟩ := group_silent o _ _ hG' hA' k' _ hpost
+          rw [hp] at hp1; cases hp1
+          exact hs1
+      · have : (passStep o st e).done.length ≤ j := by omega
+        rw [List.getElem?_eq_none this] at hp; cases hp
+
+/-- **as far as trips, vehicles and links go, the pre-pass is `tvEntry` applied entity by entity** -/
+theorem prepass_alerts_mentions (o : NyctAlertsOpts) (m : Msg) :
+    allMentions (.alerts o) (prepass (.alerts o) m) = allMentions (.alerts o) (m.entities.map (tvEntry o)) ∧
+    allVehMentions (.alerts o) (prepass (.alerts o) m) = allVehMentions (.alerts o) (m.entities.map (tvEntry o)) ∧
+    allItems (.alerts o) (prepass (.alerts o) m) = allItems (.alerts o) (m.entities.map (tvEntry o)) := by
+  have H : ∀ (es pre : List Entity) (st : AlertPass), GInv o pre st → AOnly st → RInv o pre st →
+      RInv o (pre ++ es) (es.foldl (passStep o) st) := by
+    intro es
+    induction es with
+    | nil => intro pre st _ _ h; simpa using h
+    | cons e r ih =>
+      intro pre st hG hA hR
+      simp only [List.foldl_cons]
+      have := ih (pre ++ [e]) _ (passStep_GInv o pre st e hG) (passStep_AOnly o st e hA) (passStep_RInv o pre st e hG hA hR)
+      simpa using this
+  have hR := H m.entities [] {} ⟨by intro k i h; simp [alookup] at h, by intro k _; rfl⟩
+    (by intro k i hl; simp [alookup] at hl) ⟨rfl, by intro j p e hp; simp at hp⟩
+  simp only [List.nil_append] at hR
+  rw [C17_prepass_is_fold]
+  apply mentions_congr
+  apply forall₂_of_index
+  · rw [hR.1]; simp
+  · intro j p q hp hq
+    rw [List.getElem?_map] at hq
+    cases he : m.entities[j]? with
+    | none => rw [he] at hq; simp at hq
+    | some e' =>
+      rw [he] at hq
+      simp only [Option.map_some, Option.some.injEq] at hq
+      subst hq
+      exact hR.2 j p e' hp he
+
+end Gtfs.Rt
+
+namespace Gtfs.Rt
+
+/-- the merge loop's trip, vehicle and link tables are functions of the mention lists -/
+theorem runEntities_tables_congr (ext : Ext) (D T : List (Entity × Bool))
+    (h1 : allMentions ext D = allMentions ext T) (h2 : allVehMentions ext D = allVehMentions ext T)
+    (h3 : allItems ext D = allItems ext T) :
+    (runEntities ext D).trips = (runEntities ext T).trips ∧ (runEntities ext D).vehicles = (runEntities ext T).vehicles ∧
+    (runEntities ext D).tripToVeh = (runEntities ext T).tripToVeh ∧ (runEntities ext D).vehToTrip = (runEntities ext T).vehToTrip ∧
+    (runEntities ext D).noId = (runEntities ext T).noId ∧ (runEntities ext D).noIdLinks = (runEntities ext T).noIdLinks := by
+  have t1 := runEntities_trips ext D
+  have t2 := runEntities_trips ext T
+  unfold allMentions at h1
+  rw [h1] at t1
+  obtain ⟨v1, n1⟩ := runEntities_vehicles ext D
+  obtain ⟨v2, n2⟩ := runEntities_vehicles ext T
+  rw [h2] at v1 n1
+  obtain ⟨a1, a2, _, a4⟩ := runEntities_links ext D
+  obtain ⟨b1, b2, _, b4⟩ := runEntities_links ext T
+  rw [h3] at a1 a2 a4
+  exact ⟨t1.trans t2.symm, v1.trans v2.symm, a1.trans b1.symm, a2.trans b2.symm, n1.trans n2.symm, a4.trans b4.symm⟩
+
+theorem finish_congr (c : Int) (a b : Acc) (h : a.trips = b.trips ∧ a.vehicles = b.vehicles ∧ a.tripToVeh = b.tripToVeh ∧
+    a.vehToTrip = b.vehToTrip ∧ a.noId = b.noId ∧ a.noIdLinks = b.noIdLinks) :
+    (finish c a).trips = (finish c b).trips ∧ (finish c a).vehicles = (finish c b).vehicles := by
+  obtain ⟨h1, h2, h3, h4, h5, h6⟩ := h
+  have tv : ∀ t, tripVehicle a t = tripVehicle b t := by
+    intro t; simp only [tripVehicle, noIdLinkOf, h2, h3, h5, h6]
+  have tn : ∀ i, tripOfNoId a i = tripOfNoId b i := by
+    intro i; simp only [tripOfNoId, h6]
+  simp only [finish, h1, h2, h4, h5, tv, tn, and_self]
+
+/-- **C07 for the NYCT alerts extension.** Its pre-pass groups elevator alerts by first occurrence, so
+    the pre-processed feed of a permuted message is *not* a permutation of the original's; but what it
+    leaves of an elevator alert names no trip and no vehicle, and everything else is rewritten entity by
+    entity – so `Trips`, `Vehicles` and the links between them are the same for every order, exactly as
+    without the extension. (`Alerts` keep feed order: `C17_alerts_end_to_end`; the stops of a group are
+    the same set for every order: `C17_group_stops_perm`.) -/
+theorem C07_parse_perm_invariant_alerts (o : NyctAlertsOpts) (m m' : Msg) (hp : m'.entities.Perm m.entities)
+    (hcfT : ConflictFreeTrips (.alerts o) (prepass (.alerts o) m)) (hcfV : ConflictFreeVehicles (.alerts o) (prepass (.alerts o) m))
+    (hfun : FunctionalLinks (allItems (.alerts o) (prepass (.alerts o) m))) :
+    (parse (.alerts o) m').trips = (parse (.alerts o) m).trips ∧
+    ∃ withId noId noId' : List VehicleOut,
+      (parse (.alerts o) m).vehicles = withId ++ noId ∧ (parse (.alerts o) m').vehicles = withId ++ noId' ∧ noId'.Perm noId := by
+  obtain ⟨e1, e2, e3⟩ := prepass_alerts_mentions o m
+  obtain ⟨e1', e2', e3'⟩ := prepass_alerts_mentions o m'
+  have hcfT' : ConflictFreeTrips (.alerts o) (m.entities.map (tvEntry o)) := by
+    intro k; have := hcfT k; rw [e1] at this; exact this
+  have hcfV' : ConflictFreeVehicles (.alerts o) (m.entities.map (tvEntry o)) := by
+    intro k; have := hcfV k; rw [e2] at this; exact this
+  have hfun' : FunctionalLinks (allItems (.alerts o) (m.entities.map (tvEntry o))) := by rw [← e3]; exact hfun
+  have core := C07_finish_perm_invariant (.alerts o) ((m.timestamp.map wrap64).getD zeroTimeUnix) ((m'.timestamp.map wrap64).getD zeroTimeUnix)
+    _ _ (hp.map (tvEntry o)) hcfT' hcfV' hfun'
+  obtain ⟨c1, c2⟩ := finish_congr ((m.timestamp.map wrap64).getD zeroTimeUnix) _ _
+    (runEntities_tables_congr (.alerts o) _ _ e1 e2 e3)
+  obtain ⟨c1', c2'⟩ := finish_congr ((m'.timestamp.map wrap64).getD zeroTimeUnix) _ _
+    (runEntities_tables_congr (.alerts o) _ _ e1' e2' e3')
+  simp only [parse]
+  rw [c1, c2, c1', c2']
+  exact core
+
+end Gtfs.Rt
+
+/-! non-vacuity: the demonstration message between two members of one elevator group ("A10N#EL1", "A10S#EL1", in-station
+    policy) meets every hypothesis of `C07_parse_perm_invariant_alerts`; the second member is skipped -/
+namespace Gtfs.Rt
+private def elN' : Entity := { id := [65, 49, 48, 78, 35, 69, 76, 49], alert := some {} }
+private def elS' : Entity := { id := [65, 49, 48, 83, 35, 69, 76, 49], alert := some {} }
+private def optsSt' : NyctAlertsOpts := { policy := .station }
+private def demoAl : Msg := { demoMsg with entities := elN' :: demoMsg.entities ++ [elS'] }
+example : FunctionalLinks (allItems (.alerts optsSt') (prepass (.alerts optsSt') demoAl)) := functionalLinks_of_B _ (by decide)
+example : ConflictFreeTrips (.alerts optsSt') (prepass (.alerts optsSt') demoAl) := conflictFreeTrips_of_nodup _ _ (by decide)
+example : ConflictFreeVehicles (.alerts optsSt') (prepass (.alerts optsSt') demoAl) := conflictFreeVehicles_of_nodup _ _ (by decide)
+example : (prepass (.alerts optsSt') demoAl).map (·.2) = [false, false, false, false, true] := by decide
 end Gtfs.Rt
